@@ -215,6 +215,9 @@ func runAll(repo, verif string, timeoutS int, only func(*Obligation) bool, keepS
 		if c, ok := w.cs.Funcs[key]; ok && (c.Trusted || c.Opaque) {
 			continue
 		}
+		if w.inlinedOnly(key) {
+			continue // unexported straight-line helper without a contract: verified in context at every call site (inlined)
+		}
 		fc, err := w.NewFnCtx(key)
 		if err != nil {
 			res.genErr[key] = err
